@@ -542,7 +542,7 @@ func propEVM(t *rapid.T) {
 	var created, failedCreates, outOfZoneAttempts int
 	step := func(t *rapid.T) {
 		before := scanAccounts(t, c.sdb, c.pre)
-		op := rapid.SampledFrom([]string{"create", "create", "create2", "create2-ground", "create2-ground-foreign", "call"}).Draw(t, "op")
+		op := rapid.SampledFrom([]string{"create", "create", "create2", "create2-ground", "create2-ground-foreign", "create2-ground-qi", "call"}).Draw(t, "op")
 		caller, callerClass := mkCaller(t)
 		gas := rapid.SampledFrom([]uint64{3000000, 3000000, 3000000, 100000, 40000, 26000, 1000}).Draw(t, "gas")
 		value := big.NewInt(rapid.SampledFrom([]int64{0, 0, 1, 1e18 + 1}).Draw(t, "value"))
@@ -558,7 +558,7 @@ func propEVM(t *rapid.T) {
 			init, ik := genInit(t, c, 0)
 			desc = fmt.Sprintf("Create caller=%s gas=%d value=%v init=%s", callerClass, gas, value, ik)
 			_, addr, _, _, err = c.evm.Create(vm.AccountRef(caller), init, gas, value)
-		case "create2", "create2-ground", "create2-ground-foreign":
+		case "create2", "create2-ground", "create2-ground-foreign", "create2-ground-qi":
 			init, ik := genInit(t, c, 0)
 			var salt [32]byte
 			copy(salt[:], rapid.SliceOfN(rapid.Byte(), 32, 32).Draw(t, "salt"))
@@ -579,6 +579,12 @@ func propEVM(t *rapid.T) {
 					target = common.Location{loc[0], (loc[1] + 1) & 0x0f}
 				}
 				for i := 0; !inScope(derive(), target); i++ {
+					binary.BigEndian.PutUint64(salt[24:], uint64(i))
+				}
+			}
+			if op == "create2-ground-qi" {
+				// and the other twin: an address of this very zone, but in the Qi ledger
+				for i := 0; !(wantInternal(derive(), loc) && wantQi(derive())); i++ {
 					binary.BigEndian.PutUint64(salt[24:], uint64(i))
 				}
 			}
